@@ -20,7 +20,10 @@ def _z3_check(formulas, timeout_ms):
     s = z3.Solver()
     s.set('timeout', int(timeout_ms))
     s.add(*formulas)
-    r = s.check()
+    try:
+        r = s.check()
+    except z3.Z3Exception:      # resource limit (memory_max_size): undecided, never a verdict
+        r = z3.unknown
     return r, s
 
 
@@ -232,10 +235,19 @@ def solve(pc, goal, timeout_ms, quick_ms=3000):
     return solve_full(full, min(timeout_ms, 30000) if timeout_ms <= 60000 else timeout_ms, t0)
 
 
+def _limit_child():
+    import resource
+    try:
+        resource.setrlimit(resource.RLIMIT_AS, (8 * 1024 ** 3, 8 * 1024 ** 3))
+    except Exception:       # noqa
+        pass
+
+
 def _cvc5(smt2, tlimit_ms):
     try:
         p = subprocess.run(['/usr/bin/cvc5', '--lang=smt2', '--tlimit=%d' % tlimit_ms, '--strings-exp', '-'],
-                           input='(set-logic ALL)\n' + smt2, capture_output=True, text=True, timeout=tlimit_ms / 1000.0 + 5)
+                           input='(set-logic ALL)\n' + smt2, capture_output=True, text=True, timeout=tlimit_ms / 1000.0 + 5,
+                           preexec_fn=_limit_child)
         out = p.stdout.strip().splitlines()
         return out[0] if out else 'unknown'
     except Exception:       # noqa
@@ -261,7 +273,7 @@ def solve_full(full, timeout_ms, t0=None):
                       ('z3-4.8.12', ['/usr/bin/z3', '-smt2', '-T:%d' % max(1, t2 // 1000), '-in'])):
         try:
             text = smt2 if name != 'cvc5-cli' else '(set-logic ALL)\n' + smt2
-            p = subprocess.run(cmd, input=text, capture_output=True, text=True, timeout=t2 / 1000.0 + 5)
+            p = subprocess.run(cmd, input=text, capture_output=True, text=True, timeout=t2 / 1000.0 + 5, preexec_fn=_limit_child)
             out = p.stdout.strip().splitlines()
             if out and out[0] == 'unsat':
                 return done('unsat', backend=name)
@@ -269,7 +281,11 @@ def solve_full(full, timeout_ms, t0=None):
                 return done('sat', None, name)
         except Exception:       # noqa
             pass
-    return done('unknown', backend='z3+cvc5+z3-4.8.12', why=s.reason_unknown())
+    try:
+        why = s.reason_unknown()
+    except z3.Z3Exception:
+        why = 'resource limit'
+    return done('unknown', backend='z3+cvc5+z3-4.8.12', why=why)
 
 
 def full_formulas(pc, goal):
